@@ -16,8 +16,9 @@ import Driver.Wire
   ORD    for `undo`: the order in which the edited files are patched (a HashMap in the code)
   inj    none | fail k | cb k | ca k | cm k
 
-  answer:  <outcome>|<op>;<op>;…|<user tree>|H=<absent|bad|[entries]>|L=<absent|empty|full>|P=<0|1>|X=<0|1>
-           (X: a leftover `renamify.lock.<pid>.tmp` exists)
+  answer:  <outcome>|<op>;<op>;…|<user tree>|H=<absent|bad|[entries]>|L=<absent|empty|full>|P=<0|1>|X=<0|1>|B=<0|1>
+           (X: a leftover `renamify.lock.<pid>.tmp` exists;  B: a leftover temp file would make a later edit of the same
+           file fail — only possible with a fixed temp name opened with create_new)
 -/
 open B Fs Apply Exec
 
@@ -89,7 +90,7 @@ def inj? : List String → Option Inj
 def showOutcome : Exec.Outcome → String
   | .ok => "ok" | .fail => "fail" | .panic => "panic" | .crashed => "crashed"
 
-def digest (cmd : String) (t : Tree) : String :=
+def digest (cmd : String) (files : List Path) (t : Tree) : String :=
   let h := match lookup t pHist with
     | none => "absent"
     | some (.file c _) => (match parseHist c with
@@ -107,7 +108,8 @@ def digest (cmd : String) (t : Tree) : String :=
   let x := match lookup t pLockTmp with
     | some _ => "1"
     | none => "0"
-  s!"{Wire.showTree (userTree t)}|H={h}|L={l}|P={p}|X={x}"
+  let b := if leftoverBlocks files t then "1" else "0"
+  s!"{Wire.showTree (userTree t)}|H={h}|L={l}|P={p}|X={x}|B={b}"
 
 def exectrace : List String → String
   | cmd :: setup :: rest =>
@@ -143,7 +145,7 @@ def exectrace : List String → String
               | some pr =>
                 let r := run pr w0 inj
                 let ops := ";".intercalate (r.st.trace.reverse.map showOp)
-                s!"{showOutcome (outcome r)}|{ops}|{digest cmd r.st.t}"
+                s!"{showOutcome (outcome r)}|{ops}|{digest cmd (sortedFiles plan.hunks) r.st.t}"
   | _ => "bad-req"
 
 def dispatch : List String → Option String
